@@ -80,7 +80,11 @@ def real_unpack(ty, data, reg: S.Reg, entry: str):
         raise
     except Exception as e:
         return {"build_error": f"{type(e).__name__}: {e}"[:300]}, None, None
-    before = copy.deepcopy(d)
+    reg.last_input_iter = S.canon(d, reg, iter_order=True)
+    try:
+        before = copy.deepcopy(d)
+    except Exception:
+        before = None
     try:
         if entry == "mixin":
             r = ann.from_dict(d)
@@ -91,7 +95,7 @@ def real_unpack(ty, data, reg: S.Reg, entry: str):
         raise
     except Exception as e:
         out, r = {"err": exc_outcome(e, reg)}, None
-    mutated = not S.same(S.canon(before, reg), S.canon(d, reg))
+    mutated = before is not None and not S.same(S.canon(before, reg), S.canon(d, reg))
     return out, r, mutated
 
 
